@@ -32,18 +32,24 @@ Theorem C11_partition : forall f cf df,
 Proof. exact segment_partition_ok. Qed.
 Print Assumptions C11_partition.
 
-(* "SegmentFile succeeds for every valid file" is false of the code as it stands
-   (known finding segment:batch-number-collision): *)
-Theorem C11_succeeds_refuted :
+(* The witness of the former finding segment:batch-number-collision (a debits-only, a
+   credits-only and a mixed batch numbered 1, 2, 3; fixed in the repository: a batch split off
+   a mixed batch keeps that batch's number) now segments: the credit file carries the batch
+   numbers 2, 3 and the debit file 1, 3. *)
+Theorem C11_collision_witness_segments :
   validate ST collision_file = None /\ input_wf ST collision_file = true
-  /\ segment ST collision_file = SErr (EOutput VAscending).
-Proof. exact segment_collision. Qed.
-Print Assumptions C11_succeeds_refuted.
+  /\ match segment ST collision_file with
+     | SOk cf df => map sb_num (sf_batches cf) = [2; 3] /\ map sb_num (sf_batches df) = [1; 3]
+     | SErr _ => False
+     end.
+Proof. exact segment_collision_fixed. Qed.
+Print Assumptions C11_collision_witness_segments.
 
-(* ... and it is the only way to fail: for every file passing the modelled validation with
-   well-formed IAT / ADV batches, if the batch numbers File.Create leaves on the standard
-   batches of both outputs are ascending (numbers_ok; false for the witness above, vacuous
-   for ADV files), SegmentFile returns two files — to which C11_partition applies. *)
+(* The ascending-batch-number check of an output is the only way to fail: for every file passing
+   the modelled validation with well-formed IAT / ADV batches, if the batch numbers File.Create
+   leaves on the standard batches of both outputs are ascending (numbers_ok; vacuous for ADV
+   files), SegmentFile returns two files — to which C11_partition applies.  The side condition
+   is discharged for every valid file in Props/C11General.v (C11_succeeds). *)
 Theorem C11_succeeds_partial : forall f,
   validate ST f = None -> input_wf ST f = true -> numbers_ok ST f = true ->
   exists cf df, segment ST f = SOk cf df.
